@@ -243,3 +243,456 @@ func checkC27ChainLink(w *World, r *Run) {
 	r.Check(good && anchor && n > 0, rule, "ValidateEntry links each entry to its predecessor", fn.Pos(), "PreviousHash == running hash on every success path past index 0; genesis anchor only at index 0", "an entry can verify without its PreviousHash having been compared with the hash of the entry before it (e.g. whenever it is of GENESIS type): a signed prefix of the log can be re-inserted later in the log without detection")
 	_ = types.Typ
 }
+
+// checkC28PayloadHash: the payload hash that is compared with the signed value is computed
+// over the request body on every path, or is the hash of nothing only where the request is
+// known to carry no body (a chunked request has ContentLength −1 and does carry one).
+func checkC28PayloadHash(w *World, r *Run) {
+	rule := r.Rule("payload-hash-covers-the-body", "F9",
+		"every non-nil result of generateHashedPayload is the hex digest of a SHA-256 the request body was copied into; a constant digest may be returned only where the body is nil / http.NoBody / of declared length exactly 0", 1)
+	fn := w.SSAFunc("internal/http/server/authentication", "generateHashedPayload")
+	if fn == nil {
+		r.Anchor(rule, "authentication.generateHashedPayload")
+		return
+	}
+	good, n, why := true, 0, ""
+	for _, ret := range returnsOf(fn) {
+		if isFailureReturn(ret) || ret.Block() == fn.Recover {
+			continue
+		}
+		n++
+		v := retResult(ret, 0)
+		// digest of a hash that received the body
+		fromBody := sliceContains(v, true, func(x ssa.Value) bool {
+			c, ok := x.(*ssa.Call)
+			if !ok || !isCallNamed(c, "Sum") {
+				return false
+			}
+			recv := c.Call.Value
+			if !c.Call.IsInvoke() && len(c.Call.Args) > 0 {
+				recv = c.Call.Args[0]
+			}
+			// some Copy(hash, reader-from-body) precedes
+			fed := false
+			allInstrs(fn, false, func(_ *ssa.Function, ins ssa.Instruction) {
+				cp, ok := ins.(*ssa.Call)
+				if !ok || !isCallNamed(cp, "Copy") || len(cp.Call.Args) < 2 {
+					return
+				}
+				if sameValue(stripConv(cp.Call.Args[0]), stripConv(recv)) || sliceContains(cp.Call.Args[0], false, func(y ssa.Value) bool { return y == stripConv(recv) }) {
+					if sliceContains(cp.Call.Args[1], true, func(y ssa.Value) bool { nm, _ := fieldLoadName(y); return nm == "Body" }) {
+						fed = true
+					}
+				}
+			})
+			return fed
+		})
+		if fromBody {
+			continue
+		}
+		// otherwise: constant digest, allowed only without a body
+		noBody := everyPathEstablishes(ret.Block(), func(f Fact) bool {
+			nm, _ := fieldLoadName(f.Val)
+			if nm == "Body" && (f.Kind == IsNil || (f.Kind == EqConst && f.Other != nil)) {
+				return true
+			}
+			if f.Other != nil {
+				if n2, _ := fieldLoadName(f.Other); n2 == "Body" && f.Kind == EqConst {
+					return true
+				}
+			}
+			if nm == "ContentLength" && f.Kind == EqConst && f.Const != nil {
+				if k, isc := intConst(f.Const); isc && k == 0 {
+					return true
+				}
+			}
+			return false
+		})
+		if !noBody {
+			good, why = false, "a result at "+w.Pos(posOf(ret))+" is not derived from hashing the body and is not confined to body-less requests"
+		}
+	}
+	r.Check(good && n > 0, rule, "generateHashedPayload hashes the body it lets through", fn.Pos(), "sha256 over r.Body on every path that returns a digest", why+": a request signed for an empty payload can carry an arbitrary (e.g. chunked, ContentLength −1) body past the signature check")
+}
+
+// checkC29EscapeBound: the test that recognises an existing %XX escape looks exactly as far
+// as it reads.
+func checkC29EscapeBound(w *World, r *Run) {
+	rule := r.Rule("escape-test-reaches-the-end-of-the-path", "F7",
+		"in generateCanonicalURI the bound that guards the %XX test is idx + k < len(path) with k the largest offset the test reads (an escape in the last three bytes of the path is recognised)", 1)
+	fn := w.SSAFunc("internal/http/server/authentication", "generateCanonicalURI")
+	if fn == nil {
+		r.Anchor(rule, "authentication.generateCanonicalURI")
+		return
+	}
+	maxOff, bound := int64(-1), int64(-1)
+	allInstrs(fn, false, func(_ *ssa.Function, ins ssa.Instruction) {
+		switch x := ins.(type) {
+		case *ssa.Lookup: // string indexing s[i] (older lowering)
+			if bo, ok := x.Index.(*ssa.BinOp); ok && bo.Op == token.ADD {
+				if k, isc := intConst(bo.Y); isc && k > maxOff {
+					maxOff = k
+				}
+			}
+		case *ssa.Index: // string indexing s[i]
+			if bo, ok := x.Index.(*ssa.BinOp); ok && bo.Op == token.ADD {
+				if k, isc := intConst(bo.Y); isc && k > maxOff {
+					maxOff = k
+				}
+			}
+		case *ssa.BinOp:
+			if x.Op == token.LSS {
+				if bo, ok := x.X.(*ssa.BinOp); ok && bo.Op == token.ADD && isLenOf(x.Y, func(ssa.Value) bool { return true }) {
+					if k, isc := intConst(bo.Y); isc {
+						bound = k
+					}
+				}
+			}
+		}
+	})
+	r.Check(maxOff >= 1 && bound == maxOff, rule, "generateCanonicalURI: %XX lookahead bound", fn.Pos(), fmt.Sprintf("idx+%d < len(path), reads up to idx+%d", bound, maxOff), fmt.Sprintf("the escape test reads up to idx+%d but requires idx+%d < len(path): a percent-escape at the very end of the path is re-encoded (%%25…) and every correctly signed request for such a key is rejected", maxOff, bound))
+}
+
+// checkC32NilList: isTrustedProxy reads a nil list as "no list configured" (trust all), so
+// the parser may hand back nil only for an empty configuration.
+func checkC32NilList(w *World, r *Run) {
+	rule := r.Rule("configured-list-never-parses-to-nil", "F1",
+		"parseTrustedProxyCIDRs returns a possibly-nil slice only where len(configured strings) == 0", 1)
+	fn := w.SSAFunc(relLua, "parseTrustedProxyCIDRs")
+	if fn == nil {
+		r.Anchor(rule, "lua.parseTrustedProxyCIDRs")
+		return
+	}
+	var mayNil func(v ssa.Value, depth int) bool
+	mayNil = func(v ssa.Value, depth int) bool {
+		if depth > 8 {
+			return true
+		}
+		switch x := v.(type) {
+		case *ssa.Const:
+			return x.Value == nil
+		case *ssa.Phi:
+			for _, e := range x.Edges {
+				if e != ssa.Value(x) && mayNil(e, depth+1) {
+					return true
+				}
+			}
+			return false
+		case *ssa.MakeSlice, *ssa.Slice:
+			return false
+		case *ssa.Call:
+			if isBuiltinCall(x, "append") {
+				// append(nil-able, …) on some iterations only: the loop may not run
+				return false
+			}
+			return true
+		}
+		return true
+	}
+	good := true
+	for _, ret := range returnsOf(fn) {
+		v := retResult(ret, 0)
+		if !mayNil(v, 0) {
+			continue
+		}
+		empty := false
+		for _, f := range factsAt(ret.Block()) {
+			if factSaysEmpty(f, func(x ssa.Value) bool { _, isP := unspill(x).(*ssa.Parameter); return isP }) {
+				empty = true
+			}
+		}
+		if !empty {
+			good = false
+		}
+	}
+	r.Check(good, rule, "parseTrustedProxyCIDRs returns nil only for an empty configuration", fn.Pos(), "nil only under len(cidrStrings) == 0", "a configured list whose entries all fail to parse comes back as nil, which isTrustedProxy reads as 'no list configured': every peer is trusted and forwarded headers are honoured")
+}
+
+// checkC33BucketFromHost: the bucket of a virtual-hosted request is the host name minus the
+// endpoint suffix — bucket names may contain dots.
+func checkC33BucketFromHost(w *World, r *Run) {
+	rule := r.Rule("bucket-is-host-minus-endpoint-suffix", "F9",
+		"the virtual-host middleware derives the bucket by removing the '.'+endpoint suffix from the host name (TrimSuffix/CutSuffix/HasSuffix-guarded slice), never by cutting the host at its first dot", 1)
+	var fns []*ssa.Function
+	for _, fn := range w.allFuncs {
+		if fn.Pkg != nil && pkgRel(fn.Pkg.Pkg) == relHTTPMw && strings.Contains(funcName(topFunc(fn)), "MakeVirtualHostBucketAddressingMiddleware") {
+			fns = append(fns, fn)
+		}
+	}
+	if len(fns) == 0 {
+		r.Anchor(rule, "middleware.MakeVirtualHostBucketAddressingMiddleware")
+		return
+	}
+	suffixBased, dotCut := false, ""
+	for _, fn := range fns {
+		allInstrs(fn, false, func(_ *ssa.Function, ins ssa.Instruction) {
+			c, ok := ins.(*ssa.Call)
+			if !ok {
+				return
+			}
+			f := calleeObj(c)
+			if f == nil || f.Pkg() == nil || f.Pkg().Path() != "strings" {
+				return
+			}
+			switch f.Name() {
+			case "TrimSuffix", "CutSuffix", "HasSuffix":
+				suffixBased = true
+			case "Cut", "Split", "SplitN", "Index", "IndexByte", "SplitSeq":
+				if len(c.Call.Args) >= 2 {
+					if s, isStr := constString(c.Call.Args[1]); isStr && s == "." {
+						dotCut = w.Pos(posOf(c))
+					}
+				}
+			}
+		})
+	}
+	r.Check(suffixBased && dotCut == "", rule, "virtual-host bucket = host − endpoint suffix", fns[0].Pos(), "suffix removal", "the host name is cut at a '.' ("+dotCut+"): a bucket whose name contains a dot is not recognised, the path is left unrewritten and the request acts on a different bucket/key than the path-style request would")
+}
+
+// checkC34PerHeaderFlag: every requested header is matched on its own.
+func checkC34PerHeaderFlag(w *World, r *Run) {
+	rule := r.Rule("each-requested-header-is-matched-separately", "F1",
+		"in matchRequestedHeaders the flag tested after the inner loop is re-initialised for every requested header (no value is carried around the outer loop)", 1)
+	fn := w.SSAFunc(relHTTPMw, "matchRequestedHeaders")
+	if fn == nil {
+		r.Anchor(rule, "middleware.matchRequestedHeaders")
+		return
+	}
+	isLoopHead := func(b *ssa.BasicBlock) bool {
+		return strings.Contains(b.Comment, "loop") && !strings.Contains(b.Comment, "body") && !strings.Contains(b.Comment, "done")
+	}
+	bad, n := "", 0
+	for _, b := range fn.Blocks {
+		if len(b.Instrs) == 0 {
+			continue
+		}
+		iff, ok := b.Instrs[len(b.Instrs)-1].(*ssa.If)
+		if !ok {
+			continue
+		}
+		phi, ok := iff.Cond.(*ssa.Phi)
+		if !ok {
+			if u, isNot := iff.Cond.(*ssa.UnOp); isNot {
+				phi, ok = u.X.(*ssa.Phi)
+			}
+		}
+		if !ok || phi.Type().Underlying() != types.Typ[types.Bool] {
+			continue
+		}
+		n++
+		// the tested value must not be carried into the next iteration of the loop the test
+		// sits in: no phi of a loop header that T branches back to receives it
+		inChain := map[ssa.Value]bool{}
+		var walk func(v ssa.Value)
+		walk = func(v ssa.Value) {
+			p, ok := v.(*ssa.Phi)
+			if !ok || inChain[p] {
+				return
+			}
+			inChain[p] = true
+			for _, e := range p.Edges {
+				walk(e)
+			}
+		}
+		walk(phi)
+		for _, sc := range b.Succs {
+			if !(sc.Dominates(b) && isLoopHead(sc)) {
+				continue
+			}
+			for pi, pred := range sc.Preds {
+				if pred != b {
+					continue
+				}
+				for _, ins := range sc.Instrs {
+					hp, ok := ins.(*ssa.Phi)
+					if !ok {
+						break
+					}
+					if pi < len(hp.Edges) && inChain[hp.Edges[pi]] {
+						bad = w.Pos(hp.Pos())
+					}
+				}
+			}
+		}
+	}
+	r.Check(bad == "" && n > 0, rule, "matchRequestedHeaders: match flag is per requested header", fn.Pos(), "flag initialised inside the outer loop", "the match flag lives across iterations of the outer loop: once one requested header matched, every later header counts as matched too — a preflight naming an allowed header before a forbidden one is granted")
+}
+
+// checkOptionsGuard generalises the C23 rule: where an options struct for a forwarded call
+// is built only under a condition, every bypass has established that each copied value is
+// absent.
+func checkOptionsGuard(w *World, r *Run, rule, rel string) int {
+	n := 0
+	for _, fn := range w.allFuncs {
+		if fn.Pkg == nil || pkgRel(fn.Pkg.Pkg) != rel || fn.Parent() != nil {
+			continue
+		}
+		for _, b := range fn.Blocks {
+			for _, ins := range b.Instrs {
+				phi, ok := ins.(*ssa.Phi)
+				if !ok || !strings.HasSuffix(structNameOf(phi.Type()), "Options") {
+					continue
+				}
+				var lit *ssa.Alloc
+				hasNil := false
+				for _, e := range phi.Edges {
+					if isNilConst(e) {
+						hasNil = true
+					}
+					if a, ok := e.(*ssa.Alloc); ok {
+						lit = a
+					}
+				}
+				if !hasNil || lit == nil {
+					continue
+				}
+				for _, ref := range *lit.Referrers() {
+					fa, ok := ref.(*ssa.FieldAddr)
+					if !ok {
+						continue
+					}
+					fname := fieldName(fa.X.Type(), fa.Field)
+					for _, v := range storesTo(fa) {
+						if _, isConst := v.(*ssa.Const); isConst {
+							continue
+						}
+						n++
+						L := lit.Block()
+						val := v
+						ok2 := everyPathCrosses(phi.Block(), func(d *ssa.BasicBlock, k int) bool {
+							if d.Succs[k] == L {
+								return true
+							}
+							for _, f := range edgeFacts(d, k) {
+								if f.Kind == IsNil && (sameValue(f.Val, val) || samePartValue(f.Val, val)) {
+									return true
+								}
+								if f.Kind == IsNil {
+									if _, base := fieldLoadName(val); base != nil && sameValue(f.Val, base) {
+										return true // the struct the value is read from is nil
+									}
+								}
+								if factSaysEmpty(f, func(x ssa.Value) bool { return sameValue(x, val) || samePartValue(x, val) }) {
+									return true
+								}
+							}
+							return false
+						})
+						r.Check(ok2, rule, fmt.Sprintf("%s: %s.%s is forwarded whenever present", funcName(fn), structNameOf(phi.Type()), fname), posOf(phi), "nil options only where the value is absent", "the options are left nil on a path where "+fname+" may be present: the value is silently dropped from the forwarded call")
+					}
+				}
+			}
+		}
+	}
+	return n
+}
+
+// checkC38Directives: the S3 client announces REPLACE exactly when the caller asked for it.
+func checkC38Directives(w *World, r *Run) {
+	rule := r.Rule("replace-directives-follow-the-flags", "F1",
+		"in s3ClientStorage.CopyObject every path that leaves TaggingDirective / MetadataDirective unset has established that ReplaceTags / ReplaceMetadata is false (or opts nil)", 2)
+	fn := w.SSAFunc(relS3Client, "s3ClientStorage.CopyObject")
+	if fn == nil {
+		r.Anchor(rule, "s3ClientStorage.CopyObject")
+		return
+	}
+	var sdk ssa.Instruction
+	allInstrs(fn, false, func(_ *ssa.Function, ins ssa.Instruction) {
+		if c, ok := ins.(ssa.CallInstruction); ok && c.Common().IsInvoke() && c.Common().Method.Name() == "CopyObject" {
+			sdk = ins
+		}
+		if c, ok := ins.(*ssa.Call); ok && !c.Call.IsInvoke() {
+			if f := calleeObj(c); f != nil && f.Name() == "CopyObject" && f.Pkg() != nil && strings.Contains(f.Pkg().Path(), "service/s3") {
+				sdk = ins
+			}
+		}
+	})
+	if sdk == nil {
+		r.Unk(rule, "s3ClientStorage.CopyObject → SDK CopyObject", fn.Pos(), "SDK call not found")
+		return
+	}
+	for _, d := range []struct{ field, flag string }{{"TaggingDirective", "ReplaceTags"}, {"MetadataDirective", "ReplaceMetadata"}} {
+		var setBlock *ssa.BasicBlock
+		allInstrs(fn, false, func(_ *ssa.Function, ins ssa.Instruction) {
+			if _, ok := isFieldStore(ins, d.field); ok {
+				setBlock = ins.Block()
+			}
+		})
+		if setBlock == nil {
+			r.Bad(rule, "CopyObject sets "+d.field, fn.Pos(), d.field+" is never set")
+			continue
+		}
+		ok := everyPathCrosses(sdk.Block(), func(b *ssa.BasicBlock, k int) bool {
+			if b.Succs[k] == setBlock {
+				return true
+			}
+			for _, f := range edgeFacts(b, k) {
+				if nm, _ := fieldLoadName(f.Val); nm == d.flag && f.Kind == IsFalse {
+					return true
+				}
+				if f.Kind == IsNil {
+					if _, isP := unspill(f.Val).(*ssa.Parameter); isP {
+						return true
+					}
+				}
+			}
+			return false
+		})
+		r.Check(ok, rule, "CopyObject announces "+d.field+" whenever "+d.flag+" is set", posOf(sdk), d.flag+" ⇒ "+d.field+" = REPLACE", "with "+d.flag+" set the directive can stay unset (e.g. when the replacement set is empty): the endpoint copies the source's values where the storage it fronts would clear them")
+	}
+}
+
+// checkCacheFillCompletion: a streaming cache fill is completed only when the source ended
+// with io.EOF; any other read error must abort it.
+func checkCacheFillCompletion(w *World, r *Run) {
+	rule := r.Rule("cache-fill-completes-only-on-eof", "F1",
+		"in the tee readers that fill a cache while streaming (object cache and part cache) the fill pipe is closed cleanly only where the source's Read returned io.EOF; other errors close it with the error so the partial entry is dropped", 3)
+	n := 0
+	for _, fn := range w.allFuncs {
+		if fn.Pkg == nil || fn.Name() != "Read" || fn.Signature.Recv() == nil {
+			continue
+		}
+		rel := pkgRel(fn.Pkg.Pkg)
+		if rel != relObjCache && rel != relCacheStore {
+			continue
+		}
+		var cleans []*ssa.Call
+		abort := false
+		allInstrs(fn, false, func(_ *ssa.Function, ins ssa.Instruction) {
+			c, ok := ins.(*ssa.Call)
+			if !ok {
+				return
+			}
+			f := calleeObj(c)
+			if f == nil || recvNamed(f) == nil || recvNamed(f).Obj().Name() != "PipeWriter" {
+				return
+			}
+			if f.Name() == "Close" {
+				cleans = append(cleans, c)
+			}
+			if f.Name() == "CloseWithError" {
+				abort = true
+			}
+		})
+		if len(cleans) == 0 && !abort {
+			continue
+		}
+		n++
+		good := abort
+		for _, c := range cleans {
+			onEOF := false
+			for _, f := range factsAt(c.Block()) {
+				if f.Kind == EqConst && f.Other != nil && (globalErrLoaded(f.Other, "EOF") || globalErrLoaded(f.Val, "EOF")) {
+					onEOF = true
+				}
+			}
+			if !onEOF {
+				good = false
+			}
+		}
+		r.Check(good, rule, funcName(fn)+" completes the cache fill only on io.EOF", fn.Pos(), "pipeWriter.Close() under err == io.EOF, CloseWithError otherwise", "the fill pipe is closed cleanly on an error other than io.EOF: a download that broke off mid-stream leaves its truncated bytes in the cache as a complete entry, served to later readers without error")
+	}
+	if n == 0 {
+		r.Bad(rule, "cache tee readers", 0, "no streaming cache fill reader found (anchor lost)")
+	}
+}
